@@ -24,6 +24,9 @@ class StdOutOutput(i_lib.Output):
         # End of a script: as before, no line feed is added; the next script
         # starts on a clean line state.
         self._line_pending = False
+        # All of the script's output has been written when it ends, also when
+        # standard output is a file or a pipe with a buffer in front of it.
+        sys.stdout.flush()
 
 def configure():
     # One sink for the process: the pending-separator state has to survive
